@@ -490,6 +490,15 @@ func (e *Ev) binop(op token.Token, l, r Val, n ast.Node) Val {
 				return VBool{sNot(sEq(a.T, b.T))}
 			}
 		}
+	case VMapRef:
+		if b, ok := r.(VMapRef); ok {
+			switch op {
+			case token.EQL:
+				return VBool{sEq(a.T, b.T)}
+			case token.NEQ:
+				return VBool{sNot(sEq(a.T, b.T))}
+			}
+		}
 	case VRef:
 		if bi, ok := r.(VInt); ok && e.contract {
 			r = VRef{bi.T, a.Elem}
@@ -577,6 +586,10 @@ func (e *Ev) evIndex(x *ast.IndexExpr, commaOk bool) Val {
 		i := e.intOf(e.ev(x.Index), x.Index)
 		e.safety("index", "index", x.Pos(), sAnd(sLe("0", i), sLt(i, b.N)), "index in range of "+exprString(x.X))
 		return e.fx.ifaceAt(b, i, e.contract)
+	case VRefs:
+		i := e.intOf(e.ev(x.Index), x.Index)
+		e.safety("index", "index", x.Pos(), sAnd(sLe("0", i), sLt(i, b.N)), "index in range of "+exprString(x.X))
+		return VRef{sSel(b.Arr, i), b.Elem}
 	case VMapTab:
 		key := e.ev(x.Index)
 		v, ok := e.mapTabLookup(b, key, x)
